@@ -32,6 +32,9 @@ pub struct GenCfg {
     pub render: bool,
     #[serde(default)]
     pub channels: bool,
+    /// command tasks may await requests made through the old capability API
+    #[serde(default)]
+    pub cap_in_cmd: bool,
 }
 
 impl GenCfg {
@@ -57,6 +60,7 @@ impl GenCfg {
             op_b: rng.chance(1, 2),
             render: rng.chance(1, 3),
             channels: rng.chance(1, 3),
+            cap_in_cmd: false,
         }
     }
 }
@@ -272,7 +276,11 @@ impl<'a> ProgGen<'a> {
             let st = match pick {
                 0 => {
                     slots.iter_mut().for_each(|s| s.1 = true);
-                    Stmt::Request(self.leaf())
+                    if !legacy && self.cfg.cap_in_cmd && self.rng.chance(1, 2) {
+                        Stmt::CapRequest(self.leaf())
+                    } else {
+                        Stmt::Request(self.leaf())
+                    }
                 }
                 1 => Stmt::Notify(self.leaf()),
                 2 => Stmt::Emit { tag: self.tag(), cont: self.cont() },
@@ -408,6 +416,8 @@ pub struct ScriptCfg {
     pub max_steps: u32,
     pub max_batch: u32,
     pub drops: bool,
+    /// bridge hosts: abandon one-shot requests by answering them with bytes that do not decode
+    pub bridge_drops: bool,
     pub dups: bool,
     pub aborts: bool,
     pub noops: bool,
@@ -463,7 +473,8 @@ pub fn gen_script(rng: &mut Rng, programs: Vec<Cmd>, host: HostSel, sc: &ScriptC
     let mut m = Model::new(kind);
     m.g.legacy_supported = host.supports_legacy();
     m.g.legacy_drops = sc.legacy_drops;
-    let can_drop = sc.drops && !host.is_bridge();
+    // (over a bridge only one-shots can be "dropped": by an undecodable response)
+    let can_drop = sc.drops && (!host.is_bridge() || sc.bridge_drops);
     let races = programs.iter().any(Cmd::has_races);
     let max_batch = if races || !host.is_direct() || sc.force_batch1 { 1 } else { sc.max_batch.max(1) };
     let mut programs: std::collections::VecDeque<Cmd> = programs.into();
@@ -509,6 +520,7 @@ pub fn gen_script(rng: &mut Rng, programs: Vec<Cmd>, host: HostSel, sc: &ScriptC
             let droppable: Vec<ReqKey> = outs
                 .iter()
                 .filter(|o| o.droppable && o.arity != Arity::Never && !(o.arity == Arity::Once && o.resolved))
+                .filter(|o| !host.is_bridge() || o.arity == Arity::Once)
                 .map(|o| o.key)
                 .collect();
             let dup: Vec<ReqKey> = outs
@@ -641,7 +653,7 @@ pub fn gen_script(rng: &mut Rng, programs: Vec<Cmd>, host: HostSel, sc: &ScriptC
     for _round in 0..200 {
         let outs = m.outstanding();
         let mut batch = vec![];
-        if can_drop {
+        if can_drop && !host.is_bridge() {
             if let Some(o) = outs.iter().find(|o| o.arity == Arity::Many && o.droppable) {
                 batch.push(Action::Drop { site: o.key.0, arg: o.key.1 });
             }
